@@ -746,3 +746,389 @@ Lemma break_guard_examples :
   transl_ok [IMainLoop [SFor 2 [SIf n_flag [SBreak]]]] = true /\
   transl_ok [IStmt SBreak] = false.
 Proof. repeat split; reflexivity. Qed.
+
+(* ------------------------------------------------------------------ C05: housekeeping exactly once, first *)
+Definition is_user (e : ev) : bool := negb (is_hk e).
+
+Lemma user_cu : forall t, forallb is_cfg_or_use t = true -> forallb is_user t = true.
+Proof.
+  intros t H. rewrite forallb_forall in *. intros e He. specialize (H e He). destruct e; cbn in *; congruence.
+Qed.
+
+Lemma cu_inplace : forall top ins d, forallb is_cfg_or_use (inplace_cfg top ins d) = true.
+Proof.
+  intros top ins [k nm pins h]. unfold inplace_cfg. cbn [d_kind d_pins].
+  destruct k; try reflexivity; destruct ins; try reflexivity; try apply cu_pm; try apply cu_ultra_cfg.
+  - destruct top; [apply cu_wr|apply cu_app; [apply cu_pm|apply cu_wr]].
+  - destruct top; [reflexivity|apply cu_pm].
+Qed.
+
+Definition tr (r : res3) : list ev := snd (fst r).
+
+Lemma user_list : forall l,
+  Forall (fun s => forall m tab top ins d vs, forallb is_user (tr (run_stmt m tab top ins d s vs)) = true) l ->
+  forall m tab top ins d vs, forallb is_user (tr (run_list m tab top ins d l vs)) = true.
+Proof.
+  intros l HF. induction HF as [|s r Hs _ IH]; intros m tab top ins d vs; [reflexivity|].
+  cbn [run_list]. specialize (Hs m tab top ins d vs).
+  destruct (run_stmt m tab top ins d s vs) as [[v1 t1] [|]]; [exact Hs|].
+  specialize (IH m tab top ins (d ++ assigned_stmt s) v1).
+  destruct (run_list m tab top ins (d ++ assigned_stmt s) r v1) as [[v2 t2] b2].
+  unfold tr in *. cbn [fst snd] in *. rewrite forallb_app, Hs, IH. reflexivity.
+Qed.
+
+Lemma user_stmt : forall s m tab top ins d vs, forallb is_user (tr (run_stmt m tab top ins d s vs)) = true.
+Proof.
+  intro s. induction s as [id dev|dd|x e|dv x|l| |x b IHb|c b IHb] using stmt_ind';
+    intros m tab top ins d vs; unfold tr.
+  - cbn [run_stmt fst snd]. rewrite forallb_app.
+    rewrite (user_cu _ (use_cu _ (use_uses tab dev))). reflexivity.
+  - cbn [run_stmt fst snd]. apply user_cu, cu_inplace.
+  - cbn [run_stmt]. destruct (eval e vs). reflexivity.
+  - cbn [run_stmt]. destruct (vread x vs). cbn [fst snd]. rewrite forallb_app.
+    rewrite (user_cu _ (use_cu _ (use_uses tab (Some dv)))). reflexivity.
+  - cbn [run_stmt fst snd]. exact (user_cu _ (use_cu _ (use_uses tab (Some l)))).
+  - reflexivity.
+  - rewrite run_if. destruct (vread x _) as [c0 vs1]. destruct (c0 =? 0); [reflexivity|].
+    apply (user_list b IHb).
+  - rewrite run_for. generalize (pre_reset m top ins d b vs). induction c as [|k IHk]; intro v; [reflexivity|].
+    cbn [for_iter]. pose proof (user_list b IHb m tab false ins d v) as H1.
+    destruct (run_list m tab false ins d b v) as [[v1 t1] [|]]; [exact H1|].
+    specialize (IHk v1). destruct (for_iter m tab ins d b k v1) as [[v2 t2] b2].
+    unfold tr in *. cbn [fst snd] in *. rewrite forallb_app, H1, IHk. reflexivity.
+Qed.
+
+Lemma user_ann : forall l m tab ins v, forallb is_user (tr (run_ann m tab ins l v)) = true.
+Proof.
+  induction l as [|[d s] r IH]; intros m tab ins v; [reflexivity|].
+  cbn [run_ann]. pose proof (user_stmt s m tab true ins d v) as Hs.
+  destruct (run_stmt m tab true ins d s v) as [[v1 t1] [|]]; [exact Hs|].
+  specialize (IH m tab ins v1). destruct (run_ann m tab ins r v1) as [[v2 t2] b2].
+  unfold tr in *. cbn [fst snd] in *. rewrite forallb_app, Hs, IH. reflexivity.
+Qed.
+
+Definition nohand_head (t : list ev) : bool :=
+  match t with EHand _ :: _ => false | EHUse _ _ :: _ => false | _ => true end.
+
+Lemma skip_hand_id : forall t, nohand_head t = true -> skip_hand t = t.
+Proof. intros [|e r] H; [reflexivity|]. destruct e; try reflexivity; discriminate. Qed.
+
+Lemma skip_hand_app : forall hs t, forallb is_hand_ev hs = true -> skip_hand (hs ++ t) = skip_hand t.
+Proof.
+  induction hs as [|e r IH]; intros t H; [reflexivity|]. cbn [forallb] in H. apply andb_true_iff in H as [H1 H2].
+  destruct e; try discriminate; cbn [app skip_hand]; apply IH; exact H2.
+Qed.
+
+Definition pin_of (p : program) (b : name) : list Z :=
+  match button_decl p b with
+  | Some d => match d_pins d with pin :: _ => [pin] | [] => [] end
+  | None => []
+  end.
+
+Lemma nohand_user : forall t, forallb is_user t = true -> nohand_head t = true.
+Proof. intros [|e r] H; [reflexivity|]. cbn [forallb] in H. destruct e; try reflexivity; discriminate. Qed.
+
+Lemma eat_polls_poll_all : forall inp p bs h rest,
+  nohand_head rest = true ->
+  eat_polls (flat_map (pin_of p) bs) (snd (poll_all inp p bs h) ++ rest) = Some rest /\
+  nohand_head (snd (poll_all inp p bs h) ++ rest) = true.
+Proof.
+  intros inp p bs. induction bs as [|b r IH]; intros h rest Hr; [split; [reflexivity|exact Hr]|].
+  cbn [poll_all flat_map]. unfold poll_one, pin_of at 1.
+  destruct (button_decl p b) as [d|].
+  - destruct (d_pins d) as [|pin pr].
+    + destruct (IH h rest Hr) as [I1 I2]. destruct (poll_all inp p r h) as [h2 t2]. cbn [snd app] in *. split; assumption.
+    + destruct (sample inp pin h) as [lvl h1].
+      destruct (IH (set_prev b lvl h1) rest Hr) as [I1 I2].
+      destruct (poll_all inp p r (set_prev b lvl h1)) as [h2 t2]. cbn [snd app] in *.
+      split; [|reflexivity]. cbn [eat_polls]. rewrite Z.eqb_refl.
+      set (hs := if lvl && negb (blookup b (h_prev h1))
+                 then match d_handler d with
+                      | Some f => handler_events (p_tab p) (find_func f (p_funcs p))
+                      | None => [] end else []).
+      assert (Hhs : forallb is_hand_ev hs = true).
+      { subst hs. destruct (lvl && negb (blookup b (h_prev h1))); [|reflexivity].
+        destruct (d_handler d); [apply hand_handler_events|reflexivity]. }
+      rewrite <- app_assoc, (skip_hand_app hs _ Hhs), (skip_hand_id _ I2). exact I1.
+  - destruct (IH h rest Hr) as [I1 I2]. destruct (poll_all inp p r h) as [h2 t2]. cbn [snd app] in *. split; assumption.
+Qed.
+
+Lemma name_eqb_refl : forall a, name_eqb a a = true.
+Proof. induction a as [|x r IH]; [reflexivity|]. cbn [name_eqb]. rewrite Z.eqb_refl, IH. reflexivity. Qed.
+
+Lemma eat_ticks_map : forall ls t, eat_ticks ls (map ETick ls ++ t) = Some t.
+Proof.
+  induction ls as [|l r IH]; intro t; [reflexivity|]. cbn [map app eat_ticks]. rewrite name_eqb_refl. apply IH.
+Qed.
+
+Lemma tick_events_map : forall p, tick_events p = map ETick (tick_list p).
+Proof.
+  intro p. unfold tick_events, tick_list. induction (p_ticks p) as [|l r IH]; [reflexivity|].
+  cbn [flat_map]. rewrite map_app, IH. f_equal.
+  induction (anim_count p l) as [|k IHk]; [reflexivity|]. cbn [repeat map]. rewrite IHk. reflexivity.
+Qed.
+
+Lemma nohand_ticks : forall ls t, nohand_head t = true -> nohand_head (map ETick ls ++ t) = true.
+Proof. intros [|l r] t H; [exact H|reflexivity]. Qed.
+
+Lemma pass_hk_ok : forall m inp p v h,
+  hk_ok (poll_pins p) (tick_list p) (snd (fst (run_pass m inp p v h))) = true.
+Proof.
+  intros m inp p v h. unfold run_pass.
+  pose proof (eat_polls_poll_all inp p (p_polls p) h) as HP.
+  destruct (poll_all inp p (p_polls p) h) as [h1 tp]. cbn [snd] in HP.
+  pose proof (user_ann (p_loop p) m (p_tab p) false v) as HU.
+  destruct (run_ann m (p_tab p) false (p_loop p) v) as [[v1 tb] brk]. unfold tr in HU. cbn [fst snd] in *.
+  rewrite tick_events_map. unfold hk_ok.
+  destruct (HP (map ETick (tick_list p) ++ tb) (nohand_ticks _ _ (nohand_user _ HU))) as [H1 _].
+  unfold poll_pins. fold (pin_of p). change (fun b => pin_of p b) with (pin_of p).
+  rewrite H1, eat_ticks_map. exact HU.
+Qed.
+
+Lemma passes_hk_ok : forall m inp p n v h,
+  Forall (fun t => hk_ok (poll_pins p) (tick_list p) t = true) (snd (run_passes m inp p n v h)).
+Proof.
+  intros m inp p n; induction n as [|n IH]; intros v h; [constructor|].
+  cbn [run_passes]. pose proof (pass_hk_ok m inp p v h) as H1.
+  destruct (run_pass m inp p v h) as [[[v1 h1] t] brk]. specialize (IH v1 h1).
+  destruct (run_passes m inp p n v1 h1) as [v2 ts]. cbn [fst snd] in *. constructor; assumption.
+Qed.
+
+Lemma housekeeping_once : forall inp n its,
+  forallb is_user (fst (fst (exec_phases inp n its))) = true /\
+  Forall (fun t => hk_ok (poll_pins (transl its)) (tick_list (transl its)) t = true)
+         (snd (fst (exec_phases inp n its))).
+Proof.
+  intros inp n its. unfold exec_phases, run_setup.
+  pose proof (user_ann (p_setup (transl its)) MC (p_tab (transl its)) true v0) as HU.
+  destruct (run_ann MC (p_tab (transl its)) true (p_setup (transl its)) v0) as [[v t] brk].
+  pose proof (passes_hk_ok MC inp (transl its) n v
+                (fold_left (fun h d => setup_sample inp d h) (p_top_setup (transl its)) h0)) as HP.
+  destruct (run_passes MC inp (transl its) n v _) as [v' tl]. unfold tr in HU. cbn [fst snd] in *.
+  split; [|exact HP]. rewrite forallb_app, HU, andb_true_r.
+  unfold hoists. rewrite forallb_app. apply andb_true_iff. split.
+  - induction (p_top_setup (transl its)) as [|d r IH]; [reflexivity|]. cbn [flat_map].
+    rewrite forallb_app, IH, andb_true_r. apply user_cu, cu_hoist_setup.
+  - induction (p_top_loop (transl its)) as [|d r IH]; [reflexivity|]. cbn [flat_map].
+    rewrite forallb_app, IH, andb_true_r. apply user_cu, cu_hoist_loop.
+Qed.
+
+(* the head of each pass, spelled out: polls (each followed by its handler's output), ticks, user events *)
+Lemma pass_shape : forall m inp p v h,
+  exists tp tb, snd (fst (run_pass m inp p v h)) = tp ++ map ETick (tick_list p) ++ tb /\
+    forallb is_hk tp = true /\ forallb is_user tb = true /\
+    flat_map (fun e => match e with EPoll q => [q] | _ => [] end) tp = poll_pins p.
+Proof.
+  intros m inp p v h. unfold run_pass.
+  assert (HPP : forall bs h, flat_map (fun e => match e with EPoll q => [q] | _ => [] end) (snd (poll_all inp p bs h))
+                             = flat_map (pin_of p) bs).
+  { induction bs as [|b r IH]; intro hh; [reflexivity|]. cbn [poll_all flat_map]. unfold poll_one, pin_of at 1.
+    destruct (button_decl p b) as [d|].
+    - destruct (d_pins d) as [|pin pr].
+      + specialize (IH hh). destruct (poll_all inp p r hh) as [h2 t2]. cbn [snd app] in *. exact IH.
+      + destruct (sample inp pin hh) as [lvl h1]. specialize (IH (set_prev b lvl h1)).
+        destruct (poll_all inp p r (set_prev b lvl h1)) as [h2 t2]. cbn [snd app flat_map] in *.
+        rewrite flat_map_app, IH.
+        assert (Hh : forall hs, forallb is_hand_ev hs = true ->
+                     flat_map (fun e => match e with EPoll q => [q] | _ => [] end) hs = []).
+        { induction hs as [|e hs' IHh]; [reflexivity|]. cbn [forallb flat_map]. intro H.
+          apply andb_true_iff in H as [H1 H2]. rewrite (IHh H2). destruct e; cbn in *; congruence. }
+        rewrite Hh; [reflexivity|]. destruct (lvl && negb (blookup b (h_prev h1))); [|reflexivity].
+        destruct (d_handler d); [apply hand_handler_events|reflexivity].
+    - specialize (IH hh). destruct (poll_all inp p r hh) as [h2 t2]. cbn [snd app] in *. exact IH. }
+  pose proof (hk_poll_all inp p (p_polls p) h) as Hk. specialize (HPP (p_polls p) h).
+  destruct (poll_all inp p (p_polls p) h) as [h1 tp]. cbn [snd] in *.
+  pose proof (user_ann (p_loop p) m (p_tab p) false v) as HU.
+  destruct (run_ann m (p_tab p) false (p_loop p) v) as [[v1 tb] brk]. unfold tr in HU. cbn [fst snd] in *.
+  exists tp, tb. rewrite tick_events_map. repeat split; try assumption.
+Qed.
+
+(* ------------------------------------------------------------------ C05: configured before use *)
+Definition cstep (c : list (res * Z)) (e : ev) : list (res * Z) :=
+  match e with ECfg r m => (r, m) :: c | _ => c end.
+Definition cfgs (t : list ev) (c : list (res * Z)) : list (res * Z) := fold_left cstep t c.
+
+Definition safe (c : list (res * Z)) (e : ev) : bool :=
+  match e with
+  | EUse r w => has_cfg c r w
+  | EHUse r w => has_cfg c r w
+  | EPoll p => has_cfg c (RPin p) false
+  | ETick l => has_cfg c (RLcd l) true
+  | _ => true
+  end.
+
+Lemma cfgs_app : forall a b c, cfgs (a ++ b) c = cfgs b (cfgs a c).
+Proof. intros. unfold cfgs. apply fold_left_app. Qed.
+
+Lemma cbu_go_app : forall a c b, cbu_go c (a ++ b) = cbu_go c a && cbu_go (cfgs a c) b.
+Proof.
+  induction a as [|e a IH]; intros c b; [reflexivity|].
+  destruct e; cbn [app cbu_go cfgs fold_left cstep]; fold (cfgs a c); try (rewrite IH; reflexivity);
+    try (fold (cfgs a ((r, mode) :: c)); rewrite IH; reflexivity);
+    rewrite IH, andb_assoc; reflexivity.
+Qed.
+
+Definition sub (c c' : list (res * Z)) : Prop := forall x, In x c -> In x c'.
+
+Lemma has_cfg_sub : forall c c' r w, sub c c' -> has_cfg c r w = true -> has_cfg c' r w = true.
+Proof.
+  intros c c' r w Hs H. unfold has_cfg in *. apply existsb_exists in H as (x & Hx & Hc).
+  apply existsb_exists. exists x. split; [apply Hs; exact Hx|exact Hc].
+Qed.
+
+Lemma safe_sub : forall c c' e, sub c c' -> safe c e = true -> safe c' e = true.
+Proof. intros c c' e Hs H. destruct e; cbn [safe] in *; try reflexivity; eapply has_cfg_sub; eauto. Qed.
+
+Lemma safe_all_sub : forall c c' t, sub c c' -> forallb (safe c) t = true -> forallb (safe c') t = true.
+Proof.
+  intros c c' t Hs H. rewrite forallb_forall in *. intros e He. eapply safe_sub; eauto.
+Qed.
+
+Lemma sub_cons : forall c x, sub c (x :: c).
+Proof. intros c x y H. right. exact H. Qed.
+
+Lemma sub_refl : forall c, sub c c.
+Proof. intros c x H. exact H. Qed.
+
+Lemma sub_trans : forall a b c, sub a b -> sub b c -> sub a c.
+Proof. intros a b c H1 H2 x H. apply H2, H1, H. Qed.
+
+Lemma cbu_go_safe : forall t c, forallb (safe c) t = true -> cbu_go c t = true.
+Proof.
+  induction t as [|e t IH]; intros c H; [reflexivity|]. cbn [forallb] in H. apply andb_true_iff in H as [H1 H2].
+  destruct e; cbn [cbu_go safe] in *; try (apply IH; exact H2); try (rewrite H1; apply IH; exact H2).
+  apply IH. eapply safe_all_sub; [apply sub_cons|exact H2].
+Qed.
+
+Lemma sub_cfgs : forall t c, sub c (cfgs t c).
+Proof.
+  induction t as [|e t IH]; intro c; [apply sub_refl|]. cbn [cfgs fold_left]. fold (cfgs t (cstep c e)).
+  eapply sub_trans; [|apply IH]. destruct e; cbn [cstep]; try apply sub_refl. apply sub_cons.
+Qed.
+
+Lemma in_cfgs : forall t c r m, In (ECfg r m) t -> In (r, m) (cfgs t c).
+Proof.
+  induction t as [|e t IH]; intros c r m H; [destruct H|]. cbn [cfgs fold_left]. fold (cfgs t (cstep c e)).
+  destruct H as [H|H]; [|apply IH; exact H]. subst e. apply sub_cfgs. left. reflexivity.
+Qed.
+
+Lemma res_eqb_refl : forall r, res_eqb r r = true.
+Proof. intros [p| |p|l]; cbn; try apply Z.eqb_refl; try reflexivity. apply name_eqb_refl. Qed.
+
+Lemma has_cfg_in : forall c r m w, In (r, m) c -> compat r m w = true -> has_cfg c r w = true.
+Proof.
+  intros c r m w Hin Hc. unfold has_cfg. apply existsb_exists. exists (r, m). split; [exact Hin|].
+  cbn [fst snd]. rewrite res_eqb_refl, Hc. reflexivity.
+Qed.
+
+(* what a device's commands need is produced by the configuration code [t] *)
+Definition cover (d : decl) (t : list ev) : Prop :=
+  forall e, In e (dev_use d) -> exists r w m, e = EUse r w /\ In (ECfg r m) t /\ compat r m w = true.
+
+Lemma cover_safe : forall d t c, cover d t -> (forall r m, In (ECfg r m) t -> In (r, m) c) ->
+  forallb (safe c) (dev_use d) = true.
+Proof.
+  intros d t c Hc Hin. apply forallb_forall. intros e He. destruct (Hc e He) as (r & w & m & -> & H1 & H2).
+  cbn [safe]. eapply has_cfg_in; [apply Hin; exact H1|exact H2].
+Qed.
+
+Lemma in_pm : forall m pins p, In p pins -> In (ECfg (RPin p) m) (pm m pins).
+Proof. intros m pins p H. unfold pm. apply in_map_iff. exists p. split; [reflexivity|exact H]. Qed.
+
+Lemma in_wr : forall pins e, In e (wr pins) -> exists p, e = EUse (RPin p) true /\ In p pins.
+Proof. intros pins e H. unfold wr in H. apply in_map_iff in H as (p & <- & Hp). exists p. split; [reflexivity|exact Hp]. Qed.
+
+Lemma cover_wr_pm : forall d t, dev_use d = wr (d_pins d) ->
+  (forall e, In e (pm 1 (d_pins d)) -> In e t) -> cover d t.
+Proof.
+  intros d t Hu Hin e He. rewrite Hu in He. apply in_wr in He as (p & -> & Hp).
+  exists (RPin p), true, 1. repeat split. apply Hin, in_pm, Hp.
+Qed.
+
+(* a device declared by a top-level statement of setup_body: hoisted or in-place configuration covers it *)
+Lemma cover_setup : forall d, cover d (hoist_setup d ++ inplace_cfg true true d).
+Proof.
+  intros [k nm pins h]. destruct k.
+  - apply cover_wr_pm; [reflexivity|]. intros e He. apply in_or_app. right. exact He.
+  - apply cover_wr_pm; [reflexivity|]. intros e He. apply in_or_app. right. exact He.
+  - intros e He. unfold dev_use in He. cbn [d_kind d_pins] in He. destruct pins as [|p r]; [destruct He|].
+    destruct He as [<-|[]]. exists (RServo p), true, 0. repeat split. left. reflexivity.
+  - apply cover_wr_pm; [reflexivity|]. intros e He. apply in_or_app. left.
+    unfold hoist_setup. cbn [d_kind d_pins]. apply in_or_app. left. exact He.
+  - intros e He. destruct He.
+  - intros e He. unfold dev_use in He. cbn [d_kind d_pins] in He. apply in_map_iff in He as (p & <- & Hp).
+    exists (RPin p), false, 0. repeat split. apply in_or_app. left. apply (in_pm 0 pins p Hp).
+  - intros e He. unfold dev_use in He. cbn [d_kind d_pins] in He. destruct pins as [|t [|ec r]]; try destruct He.
+    + subst e. exists (RPin t), true, 1. repeat split. left. reflexivity.
+    + destruct H as [<-|[]]. exists (RPin ec), false, 0. repeat split. right. left. reflexivity.
+  - apply cover_wr_pm; [reflexivity|]. intros e He. apply in_or_app. left. exact He.
+  - intros e He. destruct He as [<-|[]]. exists (RLcd nm), true, 0. repeat split. left. reflexivity.
+  - intros e He. destruct He as [<-|[]]. exists RSer, true, 0. repeat split. left. reflexivity.
+Qed.
+
+(* a device of a hoisted kind declared by a top-level statement of loop_body *)
+Lemma cover_loop : forall d, hoisted_kind (d_kind d) = true -> cover d (hoist_loop d).
+Proof.
+  intros [k nm pins h] Hk. destruct k; try discriminate.
+  - apply cover_wr_pm; [reflexivity|]. intros e He. exact He.
+  - apply cover_wr_pm; [reflexivity|]. intros e He. exact He.
+  - intros e He. unfold dev_use in He. cbn [d_kind d_pins] in He. destruct pins as [|p r]; [destruct He|].
+    destruct He as [<-|[]]. exists (RServo p), true, 0. repeat split. left. reflexivity.
+  - apply cover_wr_pm; [reflexivity|]. intros e He.
+    unfold hoist_loop. cbn [d_kind d_pins]. apply in_or_app. left. exact He.
+  - intros e He. destruct He.
+  - intros e He. unfold dev_use in He. cbn [d_kind d_pins] in He. apply in_map_iff in He as (p & <- & Hp).
+    exists (RPin p), false, 0. repeat split. apply (in_pm 0 pins p Hp).
+  - intros e He. unfold dev_use in He. cbn [d_kind d_pins] in He. destruct pins as [|t [|ec r]]; try destruct He.
+    + subst e. exists (RPin t), true, 1. repeat split. left. reflexivity.
+    + destruct H as [<-|[]]. exists (RPin ec), false, 0. repeat split. right. left. reflexivity.
+Qed.
+
+(* the hoisted blocks are self-contained *)
+Lemma cbu_cfg_only : forall t c, forallb (fun e => match e with ECfg _ _ => true | _ => false end) t = true ->
+  cbu_go c t = true.
+Proof.
+  intros t c H. apply cbu_go_safe. rewrite forallb_forall in *. intros e He. specialize (H e He).
+  destruct e; try discriminate. reflexivity.
+Qed.
+
+Lemma pm_cfg_only : forall m pins, forallb (fun e => match e with ECfg _ _ => true | _ => false end) (pm m pins) = true.
+Proof. intros m pins. induction pins as [|p r IH]; [reflexivity|]. cbn. exact IH. Qed.
+
+Lemma wr_after_pm : forall pins c, cbu_go c (pm 1 pins ++ wr pins) = true.
+Proof.
+  intros pins c. rewrite cbu_go_app, (cbu_cfg_only _ c (pm_cfg_only 1 pins)). cbn [andb].
+  apply cbu_go_safe, forallb_forall. intros e He. apply in_wr in He as (p & -> & Hp). cbn [safe].
+  eapply has_cfg_in; [apply in_cfgs, in_pm, Hp|reflexivity].
+Qed.
+
+Lemma hoist_setup_ok : forall d c, cbu_go c (hoist_setup d) = true.
+Proof.
+  intros [k nm pins h] c. unfold hoist_setup. cbn [d_kind d_pins d_name].
+  destruct k; try reflexivity; try (apply cbu_cfg_only, pm_cfg_only); try apply wr_after_pm.
+  - destruct pins as [|p r]; [reflexivity|]. cbn. unfold has_cfg. cbn. rewrite Z.eqb_refl. reflexivity.
+  - destruct pins as [|p r]; [reflexivity|]. cbn. unfold has_cfg. cbn. rewrite Z.eqb_refl. reflexivity.
+  - destruct pins as [|bl r]; cbn; unfold has_cfg; cbn; rewrite ?Z.eqb_refl, ?name_eqb_refl; reflexivity.
+Qed.
+
+Lemma hoist_loop_ok : forall d c, cbu_go c (hoist_loop d) = true.
+Proof.
+  intros [k nm pins h] c. unfold hoist_loop. cbn [d_kind d_pins d_name].
+  destruct k; try reflexivity; try (apply cbu_cfg_only, pm_cfg_only); try apply wr_after_pm.
+  - destruct pins as [|p r]; [reflexivity|]. cbn. unfold has_cfg. cbn. rewrite Z.eqb_refl. reflexivity.
+  - destruct pins as [|p r]; reflexivity.
+  - destruct pins as [|t [|e r]]; reflexivity.
+Qed.
+
+Lemma cbu_flat_map : forall (f : decl -> list ev) l, (forall d c, cbu_go c (f d) = true) ->
+  forall c, cbu_go c (flat_map f l) = true.
+Proof.
+  intros f l H. induction l as [|d r IH]; intro c; [reflexivity|]. cbn [flat_map].
+  rewrite cbu_go_app, H, IH. reflexivity.
+Qed.
+
+Lemma hoists_ok : forall p c, cbu_go c (hoists p) = true.
+Proof.
+  intros p c. unfold hoists. rewrite cbu_go_app, (cbu_flat_map hoist_setup _ hoist_setup_ok),
+    (cbu_flat_map hoist_loop _ hoist_loop_ok). reflexivity.
+Qed.
